@@ -1,5 +1,6 @@
 import BadgerProofs.Props.C01
 import BadgerProofs.Props.C14
+import BadgerProofs.Lemmas.LsmReads
 /-!
 # C12 — flush and compaction preserve what every read returns
 -/
@@ -36,5 +37,58 @@ theorem C12_flush_imm_dup_changes_read :
   refine ⟨{ mem := [⟨[1], 5, 0, 0, 0, [1]⟩], imm := [[⟨[1], 5, 0, 0, 0, [2]⟩]], levels := [[]] }, ?_, ?_, ?_⟩ <;> decide
 
 example : LsmInv C01_exState ∧ (C01_exState.flush 7).get [1] 9 = C01_exState.get [1] 9 := by decide
+
+/-! ## compaction -/
+
+/-- (C) L0 → Lbase preserves every read at `ts ≥ discardTs`. -/
+theorem C12_compact_reads_L0Lbase {s s' : Lsm} {cd : CompactDef} {d n now' now ts : Nat} {k : Bytes}
+    (h : LsmInv s) (hv : VerBound s) (hl : Layered s) (hc : CompactOk s cd) (hk : IsL0Lbase s cd)
+    (hdp : cd.dropPrefixes = []) (hs : s.compact cd d n now' = some s') (hts : d ≤ ts) (hnow : now' ≤ now) :
+    visible now (s'.get k ts) = visible now (s.get k ts) := by
+  obtain ⟨h0, hpos, _, hempty, _⟩ := hk
+  apply LL.compact_reads_two h hv hl hc hdp hs hts hnow (by omega)
+  apply LL.readLv_eq_none
+  intro tbls htb t ht
+  exfalso
+  obtain ⟨j, hj, rfl⟩ := List.getElem_of_mem htb
+  simp only [List.length_take, List.length_drop] at hj
+  rw [List.getElem_take, List.getElem_drop] at ht
+  have hj2 : cd.thisLevel + 1 + j < s.levels.length := by omega
+  have := hempty (cd.thisLevel + 1 + j) (by omega) (by omega)
+  rw [List.getD_eq_getElem?_getD, List.getElem?_eq_getElem hj2] at this
+  simp only [Option.getD_some] at this
+  rw [this] at ht
+  simp at ht
+
+/-- (C) Li → Li+1 (`i ≥ 1`) preserves every read at `ts ≥ discardTs`. -/
+theorem C12_compact_reads_LiLnext {s s' : Lsm} {cd : CompactDef} {d n now' now ts : Nat} {k : Bytes}
+    (h : LsmInv s) (hv : VerBound s) (hl : Layered s) (hc : CompactOk s cd) (hk : IsLiLnext s cd)
+    (hdp : cd.dropPrefixes = []) (hs : s.compact cd d n now' = some s') (hts : d ≤ ts) (hnow : now' ≤ now) :
+    visible now (s'.get k ts) = visible now (s.get k ts) := by
+  obtain ⟨_, hnx, _, _⟩ := hk
+  apply LL.compact_reads_two h hv hl hc hdp hs hts hnow (by omega)
+  have : cd.nextLevel - cd.thisLevel - 1 = 0 := by omega
+  rw [this]; rfl
+
+/-- (C) Lmax → Lmax preserves every read at `ts ≥ discardTs`. -/
+theorem C12_compact_reads_Lmax {s s' : Lsm} {cd : CompactDef} {d n now' now ts : Nat} {k : Bytes}
+    (h : LsmInv s) (hv : VerBound s) (hl : Layered s) (hc : CompactOk s cd) (hk : IsLmax s cd)
+    (hdp : cd.dropPrefixes = []) (hs : s.compact cd d n now' = some s') (hts : d ≤ ts) (hnow : now' ≤ now) :
+    visible now (s'.get k ts) = visible now (s.get k ts) :=
+  LL.compact_reads_same h hv hl hc hdp hs hts hnow hk.2.1 (by rw [hk.2.1]; exact hk.1)
+
+/-- (C) every well-formed compaction other than L0 → L0 preserves every read at a timestamp
+    `ts ≥ discardTs`, as seen at any clock `now ≥` the compaction's clock. Hypotheses beyond the
+    assignment's sketch: `VerBound` (versions fit `uint64`; the overlap tests widen ranges to
+    `key@MaxUint64 … key@0`). `0 < ts` is not needed. -/
+theorem C12_compact_reads {s s' : Lsm} {cd : CompactDef} {d n now' now ts : Nat} {k : Bytes}
+    (h : LsmInv s) (hv : VerBound s) (hl : Layered s) (hc : CompactOk s cd) (hnot : ¬ IsL0L0 s cd)
+    (hdp : cd.dropPrefixes = []) (hs : s.compact cd d n now' = some s') (hts : d ≤ ts) (hnow : now' ≤ now) :
+    visible now (s'.get k ts) = visible now (s.get k ts) := by
+  rcases hc.2 with hk | hk | hk | hk
+  · exact C12_compact_reads_L0Lbase h hv hl hc hk hdp hs hts hnow
+  · exact C12_compact_reads_LiLnext h hv hl hc hk hdp hs hts hnow
+  · exact absurd hk hnot
+  · exact C12_compact_reads_Lmax h hv hl hc hk hdp hs hts hnow
 
 end Badger
